@@ -444,6 +444,7 @@ func runC13(c *an.Ctx) {
 	ruleM13(s)
 	ruleM14(s.c)
 	ruleM15(s.c)
+	ruleM16(s.c)
 	ruleM6(c)
 }
 
